@@ -21,6 +21,7 @@ type runner struct {
 	tie   *lib.Tie
 	small *lib.Tie
 	mon   *lib.Monitor
+	rng   *rand.Rand // set while the random families run: draws the creation route of each scenario
 	// pending model queries
 	lines []string
 	pend  []pending
@@ -35,6 +36,9 @@ type pending struct {
 
 func (rn *runner) do(sc scenario, tie *lib.Tie) {
 	r, _ := rpcByName(sc.RPC)
+	if rn.rng != nil && r.Variant != "waste" {
+		sc.NInit = pickInit(rn.rng, len(sc.IDs))
+	}
 	res, err := sc.run()
 	if err != nil {
 		rn.mon.Error = err.Error()
@@ -45,7 +49,7 @@ func (rn *runner) do(sc scenario, tie *lib.Tie) {
 		ncalls += len(p)
 	}
 	nontrivial := ncalls > 1 || len(res.coll) > 0
-	key := fmt.Sprintf("%s|%d|%v|%s|%v|%v|%v|%v|%d", sc.RPC, len(sc.IDs), sc.Sizes, sc.Token, sc.Delete, sc.Mask, sc.Ops, sc.Warm, sc.Passes)
+	key := fmt.Sprintf("%s|%d|%v|%s|%v|%v|%v|%v|%d|%d", sc.RPC, len(sc.IDs), sc.Sizes, sc.Token, sc.Delete, sc.Mask, sc.Ops, sc.Warm, sc.Passes, sc.NInit)
 	rn.mon.Eval(key, nontrivial, sc.summary())
 	rn.mon.Count("class:" + sc.Class)
 	if sc.Mask != nil {
@@ -55,7 +59,40 @@ func (rn *runner) do(sc scenario, tie *lib.Tie) {
 	tie.Count("class:" + sc.Class)
 	tie.Count("rpc:" + sc.RPC)
 	for i, o := range res.ops {
-		tie.Count("op:" + sc.Ops[i].Kind + ":" + strings.SplitN(o, " ", 2)[0])
+		op := sc.Ops[i]
+		kind := op.Kind
+		if op.Upsert {
+			kind += "+create-if-absent"
+		}
+		if op.Mask != "" {
+			kind += "+mask-" + op.Mask
+		}
+		if op.MsgID != "" {
+			kind += "+foreign-id"
+		}
+		if op.AllowMissing {
+			kind += "+allow-missing"
+		}
+		if op.Via != "" {
+			kind += "+via-" + op.Via
+		}
+		tie.Count("op:" + kind + ":" + strings.SplitN(o, " ", 2)[0])
+	}
+	if len(sc.IDs) > 0 && r.Variant != "waste" {
+		switch sc.NInit {
+		case 0:
+			tie.Count("route:creation-api")
+		case len(sc.IDs):
+			tie.Count("route:initial-records")
+		default:
+			tie.Count("route:mixed")
+		}
+	}
+	for _, id := range sc.IDs {
+		if len(id) > 22 {
+			tie.Count("ids:longer-than-22-bytes")
+			break
+		}
 	}
 	count := func(c call) {
 		o := c.Out
@@ -116,14 +153,14 @@ func main() {
 	res := lib.NewResult("C15", f)
 	rn := &runner{f: f}
 	rn.small = res.Tie("paging-small-exhaustive", "K2",
-		"every collection over the id pool {a,ab,b} (waste: 0..3 records) x page size {-2,-1,0,1,2,3} x starting token {empty, last key in {'',a,aa,ab,b,c}, undecodable text, undecodable bytes} (waste: {empty,0..4,-1,text,overflow}) on each of the seven RPCs, with and without a read mask hiding the key, chain followed to its end; plus every sequence of <= 2 creation/update/deletion API calls (ids a, b, empty; generated ids; parent AddChild/AddChildTrait; publication update with and without the id in the message) on a collection {a}, then two passes of one-item and default-size pages; every op outcome, the listing (Collection.List vs sortKeys) and every List call compared with the Lean model; distinct = (rpc, |ids|, size, decoded token, key visible) / (rpc, op kind, outcome)")
+		"every collection over the id pool {a,ab,b} (waste: 0..3 records), built through the creation API and as initial records, x page size {-2,-1,0,1,2,3} x starting token {empty, last key in {'',a,aa,ab,b,c}, undecodable text, undecodable bytes} (waste: {empty,0..4,-1,text,overflow}) on each of the seven RPCs, with and without a read mask hiding the key, chain followed to its end; plus every sequence of <= 2 store operations over the full alphabet (ids a, b, empty; generated ids; parent AddChild/AddChildTrait; Update* with create-if-absent, with update masks naming / leaving out the key field; publication updates with the id in the message, without it, and with a FOREIGN id; deletes with and without allow-missing; the trait servers' own Create/Update/Delete/AcknowledgePublication/Dispense RPCs) on a collection {a}, then two passes of one-item and default-size pages; plus every non-empty collection over 5 long / odd ids (35, 35, 304, 40 bytes; control, base64 and URL characters) through every creation route (initial records, creation API, create-if-absent updates, AddChild/AddChildTrait), one- and two-item pages from the start and from a token; every construction step, op outcome, the listing (key fields in Collection.List order vs rlisting) and every List call compared with the Lean model; distinct = (rpc, |ids|, size, decoded token, key visible) / (rpc, op kind and options, outcome)")
 	rn.small.Exhaustive = true
 	rn.tie = res.Tie("paging-scenarios", "K1",
-		"structured random paging scenarios from one PRNG: collection sizes 0-60/49,50,51/999-1001, page sizes {-5..0,1,2,3,7,50,1000,5000,random} fixed or varying per page, prefix-related and multi-byte ids, hostile tokens (bit flips, truncation, base64 of random bytes, tokens for deleted/absent keys, other oneof member, unknown fields, repeated field, other listers' tokens, URL/raw alphabets, embedded newlines, out-of-range indices), collections built by random histories of the models' creation/update/deletion APIs, 2-3 passes over one model, arbitrary warm-up List calls before the chain; every op outcome, listing and List call compared with the Lean model; distinct = (rpc, |ids|, size, decoded token, key visible)")
+		"structured random paging scenarios from one PRNG: collection sizes 0-60/49,50,51/999-1001, page sizes {-5..0,1,2,3,7,50,1000,5000,random} fixed or varying per page, prefix-related and multi-byte ids, hostile tokens (bit flips, truncation, base64 of random bytes, tokens for deleted/absent keys, other oneof member, unknown fields, repeated field, other listers' tokens, URL/raw alphabets, embedded newlines, out-of-range indices), long ids (to ~600 bytes, shared long prefixes) and ids with control/base64/URL characters, each collection built through a random split of initial records and creation API, collections built by random histories of the models' creation/update/deletion APIs and the servers' CRUD RPCs (create-if-absent, update masks, foreign ids, allow-missing), 2-3 passes over one model, arbitrary warm-up List calls before the chain; every op outcome, listing and List call compared with the Lean model; distinct = (rpc, |ids|, size, decoded token, key visible)")
 	rn.mon = res.Monitor("paging-property",
 		"per scenario, oracle = ids sorted bytewise (waste: reverse insertion order) filtered by the harness's own decoding of the starting token: the collection expected after the store ops comes from the harness's own set oracle; no listed key is empty; unpaged listing = oracle; no panic; negative size and malformed token answered by an error; otherwise no error, |page| <= min(size or 50, 1000), total_size = |items| on every page (the trailing empty one included), empty token reached within |items|+1 pages, concatenation = listing, on EVERY pass over the same model; the listing is unchanged after all List calls; non-trivial = non-empty collection or more than one call")
 	codecTie := res.Tie("token-codec", "K1",
-		"token encode/decode identity on the six key-token RPCs: a one-item collection whose key is an ARBITRARY byte string (22 edge cases: NUL, 1-4 byte runes, BOM, overlong forms, surrogates, > U+10FFFF, truncated sequences; random runes; random bytes); page 1 mints a token from the key, the harness decodes it with its own base64(std)+proto reader, call 2 uses it. Model: the key is a String (valid UTF-8) and the token carries it unchanged, or the bytes are not a String ('invalid': proto.Marshal refuses the token, the RPC answers Unknown); distinct = (rpc, bytes)")
+		"token encode/decode identity on the six key-token RPCs: a one-item collection whose key is an ARBITRARY byte string (22 edge cases: NUL, 1-4 byte runes, BOM, overlong forms, surrogates, > U+10FFFF, truncated sequences; random runes; random bytes); page 1 mints a token from the key, the harness decodes it with its own base64(std)+proto reader, call 2 uses it (keys of 1-8 bytes and of 21-320 bytes; the item comes from the creation API or is an initial record; the monitor requires that the server accepts the token it has just issued). Model: the key is a String (valid UTF-8) and the token carries it unchanged, or the bytes are not a String ('invalid': proto.Marshal refuses the token, the RPC answers Unknown); distinct = (rpc, bytes)")
 	discTie := res.Tie("lister-discovery", "K3",
 		"every hand-written method List…(ctx, *XRequest) (*XResponse, error) under /repo/pkg (not *.pb.go, not tests) whose request message has page_token and whose response has next_page_token according to the compiled protobuf descriptors, found by go/parser on every run; each must be one the harness drives (a lister that is not is a disagreement), and each driven lister must still exist")
 	discTie.Exhaustive = true
@@ -147,8 +184,11 @@ func main() {
 	rn.codec(rng, codecTie, f.N(40, 2000))
 	rn.smallExhaustive()
 	rn.smallOps()
+	rn.smallLong()
 	rn.flush()
+	rn.rng = rng
 	rn.random(rng)
+	rn.rng = nil
 	rn.flush()
 	if err := res.Write(f.Out); err != nil {
 		lib.Fatal(err)
@@ -181,17 +221,24 @@ func (rn *runner) smallExhaustive() {
 			}
 			for _, s := range sizes {
 				for _, t := range keyToks {
-					rn.do(scenario{RPC: r.Name, IDs: ids, Sizes: []int32{s}, Token: t, Class: "small"}, rn.small)
-					// the same with a read mask that hides the key field
-					rn.do(scenario{RPC: r.Name, IDs: ids, Sizes: []int32{s}, Token: t, Mask: hideKey(r), Class: "small-masked"}, rn.small)
+					// the items come from the creation API, or are configured as initial records
+					for _, ninit := range []int{0, len(ids)} {
+						rn.do(scenario{RPC: r.Name, IDs: ids, NInit: ninit, Sizes: []int32{s}, Token: t, Class: "small"}, rn.small)
+						// the same with a read mask that hides the key field
+						rn.do(scenario{RPC: r.Name, IDs: ids, NInit: ninit, Sizes: []int32{s}, Token: t, Mask: hideKey(r), Class: "small-masked"}, rn.small)
+						if len(ids) == 0 {
+							break
+						}
+					}
 				}
 			}
 		}
 	}
 }
 
-// opAlphabet lists the store ops the model behind rp offers, over the given ids.
-func opAlphabet(rp rpc, ids []string) []storeOp {
+// opAlphabet lists the store ops the model behind rp offers, over the given ids. foreign are ids a written message
+// may carry where the API takes the id as a separate argument.
+func opAlphabet(rp rpc, ids []string, foreign []string) []storeOp {
 	var ops []storeOp
 	switch {
 	case rp.Variant == "waste":
@@ -207,11 +254,54 @@ func opAlphabet(rp rpc, ids []string) []storeOp {
 			ops = append(ops, storeOp{Kind: "add", ID: id})
 		}
 	}
-	for _, id := range ids {
-		ops = append(ops, storeOp{Kind: "update", ID: id}, storeOp{Kind: "delete", ID: id})
-		if rp.Name == "publication.ListPublications" {
-			ops = append(ops, storeOp{Kind: "update", ID: id, Alt: true})
+	idArg := rp.Name == "publication.ListPublications" // UpdatePublication(id, message)
+	upd := func(id string) {
+		ops = append(ops, storeOp{Kind: "update", ID: id})
+		if rp.Upd != nil {
+			// Update* takes resource write options: create-if-absent, update masks with and without the key field
+			ops = append(ops,
+				storeOp{Kind: "update", ID: id, Upsert: true},
+				storeOp{Kind: "update", ID: id, Upsert: true, Mask: "nokey"},
+				storeOp{Kind: "update", ID: id, Upsert: true, Mask: "key"},
+				storeOp{Kind: "update", ID: id, Mask: "nokey"})
 		}
+		if idArg {
+			ops = append(ops, storeOp{Kind: "update", ID: id, Alt: true}, storeOp{Kind: "update", ID: id, Alt: true, Upsert: true})
+			for _, f := range foreign {
+				if f != id && f != "" {
+					ops = append(ops,
+						storeOp{Kind: "update", ID: id, MsgID: f},
+						storeOp{Kind: "update", ID: id, MsgID: f, Mask: "key"},
+						storeOp{Kind: "update", ID: id, MsgID: f, Upsert: true})
+				}
+			}
+		}
+	}
+	// the trait server's own Create… / Update… / Delete… RPCs, where it has them
+	hasRPC := map[string]bool{"hail.ListHails": true, "publication.ListPublications": true}
+	for _, id := range ids {
+		upd(id)
+		ops = append(ops, storeOp{Kind: "delete", ID: id}, storeOp{Kind: "delete", ID: id, AllowMissing: true})
+		if hasRPC[rp.Name] {
+			ops = append(ops, storeOp{Kind: "delete", ID: id, Via: "rpc"}, storeOp{Kind: "delete", ID: id, AllowMissing: true, Via: "rpc"})
+		}
+		if hasRPC[rp.Name] || rp.Name == "vending.ListInventory" {
+			for _, mk := range []string{"", "key", "nokey"} {
+				ops = append(ops, storeOp{Kind: "update", ID: id, Mask: mk, Via: "rpc"})
+			}
+		}
+		switch rp.Name {
+		case "publication.ListPublications":
+			ops = append(ops, storeOp{Kind: "add", ID: id, Via: "rpc"}, storeOp{Kind: "update", ID: id, Via: "ack"})
+		case "vending.ListInventory":
+			ops = append(ops, storeOp{Kind: "update", ID: id, Via: "dispense"})
+		}
+	}
+	if hasRPC[rp.Name] {
+		ops = append(ops, storeOp{Kind: "add", ID: "", Via: "rpc"}, storeOp{Kind: "update", ID: "", Via: "rpc"})
+	}
+	if rp.Upd != nil {
+		upd("") // the empty id names no item, with or without create-if-absent
 	}
 	return ops
 }
@@ -233,7 +323,7 @@ func keyMask(r *rand.Rand, rp rpc) []string {
 // one) on a collection holding {a}, then a chain of one-item pages, twice over the same model.
 func (rn *runner) smallOps() {
 	for _, rp := range rpcs() {
-		alpha := opAlphabet(rp, []string{"a", "b"})
+		alpha := opAlphabet(rp, []string{"a", "b"}, []string{"b", "c"})
 		if alpha == nil {
 			continue
 		}
@@ -249,6 +339,66 @@ func (rn *runner) smallOps() {
 		for _, ops := range seqs {
 			for _, s := range []int32{1, 0} {
 				rn.do(scenario{RPC: rp.Name, IDs: []string{"a"}, Ops: ops, Sizes: []int32{s}, Passes: 2, Class: "small-ops"}, rn.small)
+			}
+		}
+	}
+}
+
+// longPool: ids no generator of the models would invent: longer than a generated id (CreateHail & co: 8-20
+// characters), much longer, multi-byte, and with characters that mean something to base64 / URLs / text protocols.
+var longPool = []string{
+	"site-7/lobby/lift-bank-A/hail-0001",
+	"site-7/lobby/lift-bank-A/hail-0002",
+	strings.Repeat("0123456789abcdef", 19),
+	" \n\t\x00+=/%\"\\,;&?#",
+	strings.Repeat("é", 20),
+}
+
+// smallLong: every collection over longPool, through every creation route of the model (initial records, the
+// creation API, create-if-absent updates, parent AddChild / AddChildTrait), paged with one- and two-item pages
+// from the first page and from a token naming the first id.
+func (rn *runner) smallLong() {
+	for _, rp := range rpcs() {
+		if rp.Variant == "waste" {
+			continue // record ids do not travel in waste's tokens
+		}
+		for mask := 1; mask < 1<<len(longPool); mask++ {
+			var ids []string
+			for i, p := range longPool {
+				if mask&(1<<i) != 0 {
+					ids = append(ids, p)
+				}
+			}
+			var scs []scenario
+			scs = append(scs, scenario{RPC: rp.Name, IDs: ids, NInit: len(ids)}, scenario{RPC: rp.Name, IDs: ids})
+			// through store ops on an empty model
+			var adds, ups []storeOp
+			for i, id := range ids {
+				switch {
+				case rp.Name == "parent.ListChildren":
+					adds = append(adds, storeOp{Kind: "ensure", ID: id, Alt: i%2 == 1})
+				case rp.Name != "hail.ListHails":
+					adds = append(adds, storeOp{Kind: "add", ID: id})
+				}
+				if rp.Upd != nil {
+					ups = append(ups, storeOp{Kind: "update", ID: id, Upsert: true, Mask: []string{"", "key", "nokey"}[i%3]})
+				}
+			}
+			if adds != nil {
+				scs = append(scs, scenario{RPC: rp.Name, Ops: adds})
+			}
+			if ups != nil {
+				scs = append(scs, scenario{RPC: rp.Name, Ops: ups})
+			}
+			for _, sc := range scs {
+				for _, s := range []int32{1, 2} {
+					sc.Sizes = []int32{s}
+					sc.Class = "small-long-ids"
+					rn.do(sc, rn.small)
+				}
+				sc.Sizes = []int32{1}
+				sc.Token = encodeKeyToken(ids[0])
+				rn.do(sc, rn.small)
 			}
 		}
 	}
@@ -276,6 +426,17 @@ func genMask(r *rand.Rand, rp rpc) []string {
 		return []string{rp.Key}
 	}
 	return nil
+}
+
+// pickInit draws how many of n ids are configured as initial records: none, all, or a random split.
+func pickInit(r *rand.Rand, n int) int {
+	switch r.Intn(3) {
+	case 0:
+		return 0
+	case 1:
+		return n
+	}
+	return r.Intn(n + 1)
 }
 
 func (rn *runner) random(r *rand.Rand) {
@@ -395,7 +556,7 @@ func (rn *runner) random(r *rand.Rand) {
 		}
 		base := genIDs(r, r.Intn(8))
 		pool := append(append([]string(nil), base...), genIDs(r, 1+r.Intn(6))...)
-		alpha := opAlphabet(rp, pool)
+		alpha := opAlphabet(rp, pool, append(genIDs(r, 2), pool[r.Intn(len(pool))]))
 		var ops []storeOp
 		for j := 0; j < 1+r.Intn(12); j++ {
 			ops = append(ops, alpha[r.Intn(len(alpha))])
@@ -444,7 +605,7 @@ func replay(f lib.Flags) int {
 		out, pmsg := cc.run()
 		fmt.Printf("codec case %s key=%s -> %s %s\n", cc.RPC, cc.Key, out, pmsg)
 		kb, _ := hex.DecodeString(cc.Key)
-		if out == "panic" || (utf8.Valid(kb) && out == "invalid") {
+		if out == "panic" || (utf8.Valid(kb) && out == "invalid") || ownTokenRejected {
 			fmt.Println("STILL FAILS C15/" + cc.RPC + "/codec: " + out)
 			return 1
 		}
